@@ -36,8 +36,9 @@ type Case struct {
 	Batches       []int   `json:"batches,omitempty"`
 	Drop          int     `json:"drop"` // wire: -1 none; otherwise the client disconnects after this many items
 	DropQuiet     bool    `json:"drop_quiet,omitempty"`
-	Unix          bool    `json:"unix,omitempty"` // wire mode over real unix sockets
-	Poll          bool    `json:"poll,omitempty"` // ... against a poll-mode server
+	SrvBuf        int     `json:"srv_buf,omitempty"` // wire mode: Server.SetBufferSize (0 = default)
+	Unix          bool    `json:"unix,omitempty"`    // wire mode over real unix sockets
+	Poll          bool    `json:"poll,omitempty"`    // ... against a poll-mode server
 	Servers       int     `json:"servers,omitempty"`
 	Rounds        []Round `json:"rounds,omitempty"` // churn mode: one short-lived connection per round
 	Hold          int     `json:"hold,omitempty"`   // churn mode: connections opened on every server at its start and kept open
@@ -93,7 +94,7 @@ func genWire(t *rapid.T, c *Case) {
 	for i := 0; i < n; i++ {
 		k := rapid.IntRange(0, 19).Draw(t, "kind")
 		it := Item{Salt: rapid.Uint32().Draw(t, "salt"), Method: rapid.IntRange(0, 3).Draw(t, "method")}
-		it.Size = rapid.SampledFrom([]int{16, 17, 64, 128, 129, 1000, 16384, 66000}).Draw(t, "size")
+		it.Size = rapid.SampledFrom([]int{16, 17, 64, 90, 100, 128, 129, 1000, 3400, 16384, 66000}).Draw(t, "size")
 		switch {
 		case k <= 8:
 			it.Kind = "call"
@@ -183,6 +184,8 @@ func gen(t *rapid.T) Case {
 	} else {
 		c.Mode = "wire"
 		genWire(t, &c)
+		// server read buffers smaller than some requests, pool-aligned or not
+		c.SrvBuf = rapid.SampledFrom([]int{0, 0, 100, 128, 3000, 4096}).Draw(t, "srv_buf")
 		if rapid.IntRange(0, 3).Draw(t, "unix") == 0 {
 			c.Unix = true
 			c.Poll = rapid.Bool().Draw(t, "poll")
@@ -285,7 +288,7 @@ func runWire(c Case) kit.Outcome {
 			return kit.Outcome{Invalid: true}
 		}
 	}
-	if c.Drop > len(c.Items) || c.Drop == 0 || c.Drop < -1 {
+	if c.Drop > len(c.Items) || c.Drop == 0 || c.Drop < -1 || c.SrvBuf < 0 || c.SrvBuf > 1<<22 {
 		return kit.Outcome{Invalid: true}
 	}
 	env := kit.NewEnv()
@@ -311,7 +314,7 @@ func runWire(c Case) kit.Outcome {
 	closed := false
 	if c.Unix {
 		// real unix sockets, optionally a poll-mode server: the session's own Env replaces env
-		m := kit.Modes{Enc: c.Enc, SrvPipelining: c.SrvPipelining, SrvDirect: c.SrvDirect, Link: "unix", Poll: c.Poll}
+		m := kit.Modes{Enc: c.Enc, SrvPipelining: c.SrvPipelining, SrvDirect: c.SrvDirect, Link: "unix", Poll: c.Poll, SrvBuf: c.SrvBuf}
 		sess, err := kit.NewSession(m)
 		if err != nil {
 			return kit.Undecided("%v", err)
@@ -334,6 +337,9 @@ func runWire(c Case) kit.Outcome {
 		}()
 	} else {
 		srv := kit.NewServer(env, c.SrvPipelining, c.SrvDirect)
+		if c.SrvBuf > 0 {
+			srv.SetBufferSize(c.SrvBuf)
+		}
 		link = kit.NewFrameLink()
 		link.S.SetHold(true)
 		done = kit.ServeLink(srv, link, c.Enc, c.SrvDirect)
@@ -633,6 +639,12 @@ func runWire(c Case) kit.Outcome {
 	}
 	if kinds["junk"] {
 		out.Classes = append(out.Classes, "malformed-frame-between-requests")
+	}
+	if c.SrvBuf > 0 {
+		out.Classes = append(out.Classes, "small-server-buffer")
+		if c.SrvBuf&(c.SrvBuf-1) != 0 {
+			out.Classes = append(out.Classes, "server-buffer-not-pool-aligned")
+		}
 	}
 	return out
 }
